@@ -31,6 +31,17 @@ func (sd subscriptionDict) CleanAll() {
 	}
 }
 
+// writeFrame sends a frame with a single Write call, so that the frames of
+// concurrent writers (heartbeat, listeners, handler) cannot be interleaved
+func writeFrame(conn net.Conn, frame ws.Frame) error {
+	b, err := ws.CompileFrame(frame)
+	if err != nil {
+		return err
+	}
+	_, err = conn.Write(b)
+	return err
+}
+
 func sendHeartbeat(ctx context.Context, conn net.Conn) error {
 	timeTicker := time.NewTicker(time.Second * 4)
 	defer timeTicker.Stop()
@@ -42,7 +53,7 @@ func sendHeartbeat(ctx context.Context, conn net.Conn) error {
 	for {
 		select {
 		case <-timeTicker.C:
-			if err := wsutil.WriteServerText(conn, bMsg); err != nil {
+			if err := writeFrame(conn, ws.NewTextFrame(bMsg)); err != nil {
 				return err
 			}
 		case <-ctx.Done():
@@ -82,10 +93,7 @@ func (g *Gateway) subscriptionHandler(w http.ResponseWriter, r *http.Request) {
 		// gracefully close connection
 		body := ws.NewCloseFrameBody(ws.StatusNormalClosure, "")
 		frame := ws.NewCloseFrame(body)
-		if err := ws.WriteHeader(conn, frame.Header); err != nil {
-			return
-		}
-		if _, err := conn.Write(body); err != nil {
+		if err := writeFrame(conn, frame); err != nil {
 			return
 		}
 
@@ -117,7 +125,7 @@ func (g *Gateway) subscriptionHandler(w http.ResponseWriter, r *http.Request) {
 			if err != nil {
 				return
 			}
-			if err := wsutil.WriteServerText(conn, bresp); err != nil {
+			if err := writeFrame(conn, ws.NewTextFrame(bresp)); err != nil {
 				return
 			}
 			// start sending heartbeat
